@@ -15,7 +15,7 @@
    threading layer implement these semantics, float evaluation inside one iteration, in-place
    writes through numpy views into the caller's datasets. *)
 From Coq Require Import List Bool ZArith String Permutation.
-From Pandora Require Import Model.Prange Proofs.PrangeP Gen.Prange.
+From Pandora Require Import Model.Prange Proofs.PrangeP Gen.Prange Spec.Reproducible.
 From Pandora Require Import Model.Machine Spec.Language Proofs.MachineP Gen.Tables.
 From Pandora Require Import Model.History Proofs.HistoryP Gen.History.
 Import ListNotations.
@@ -77,6 +77,21 @@ Theorem C18_kernels_schedule_independent :
 Proof.
   intros N HN val cst own. apply race_free_sound.
   exact (proj1 (forallb_forall _ _) C18_prange_race_free N HN).
+Qed.
+
+(* in the words of the property (Spec/Reproducible.v) *)
+Theorem C18_no_result_depends_on_schedule :
+  forall N, In N prange_nests ->
+  forall (val : Type) (cst : Z -> val) (own : cell -> option nat) (n : nat) (P : nat -> prog val),
+    (forall i, conforms val cst own N i (P i)) -> (forall i, (n <= i)%nat -> P i = Done) ->
+    same_as_sequential val n P /\ schedule_free val P.
+Proof.
+  intros N HN val cst own n P Hc Hd.
+  assert (S : same_as_sequential val n P).
+  { intros m0 s pool' m'. exact (C18_kernels_schedule_independent N HN val cst own n P m0 Hc Hd s pool' m'). }
+  split; [exact S|].
+  intros m0 s1 s2 pool1 m1 pool2 m2 E1 D1 E2 D2 c.
+  rewrite (S m0 s1 pool1 m1 E1 D1 c). symmetry. exact (S m0 s2 pool2 m2 E2 D2 c).
 Qed.
 
 Theorem C18_kernels_permutation_independent :
@@ -154,6 +169,16 @@ Section C18_history.
     apply (run_data_history_free value sem prep_sem trigger_callbacks
              (prepare_info (1 <? n)%nat) (callback_info rdm) first_callbacks multiscale_callbacks p d n rdm);
       auto.
+  Qed.
+
+  Theorem C18_no_result_depends_on_leftovers :
+    forall (p : list step) (d : state) (n : nat) (rdm : bool),
+      respects value (prepare_info (1 <? n)%nat) prep_sem ->
+      (forall c id, In c (callback_info rdm) -> respects value c (sem (cb_name c) id)) ->
+      path_ok Begin p = Some d -> p <> [] -> (n >= 1)%nat ->
+      leftover_free value (run_data value sem prep_sem trigger_callbacks p n rdm).
+  Proof.
+    intros p d n rdm H1 H2 H3 H4 H5 s1 s2. exact (C18_run_products_history_free p d n rdm H1 H2 H3 H4 H5 s1 s2).
   Qed.
 End C18_history.
 
@@ -317,11 +342,13 @@ Print Assumptions C18_prange_race_free.
 Print Assumptions C18_parallel_switch.
 Print Assumptions C18_data_precondition_arrays.
 Print Assumptions C18_kernels_schedule_independent.
+Print Assumptions C18_no_result_depends_on_schedule.
 Print Assumptions C18_kernels_permutation_independent.
 Print Assumptions C18_run_attrs_covered.
 Print Assumptions C18_persistent_attributes.
 Print Assumptions C18_shared_dicts_wf.
 Print Assumptions C18_run_products_history_free.
+Print Assumptions C18_no_result_depends_on_leftovers.
 Print Assumptions C18_rerun_same_trace_and_persistent_pair.
 Print Assumptions C18_rerun_same_result_any_interleaving.
 Print Assumptions C18_step_leaks_from_check_witness.
